@@ -166,6 +166,7 @@ func cmdCheck(args []string) {
 	lemmas := map[string]bool{}
 	trusted := map[string]bool{}
 	var missing []string
+	var mismatched [][2]string
 	for _, k := range keys {
 		ct := P.contracts[k]
 		f := P.findFunc(ct)
@@ -177,6 +178,16 @@ func cmdCheck(args []string) {
 		}
 		c, err := verifyFunc(P, f, ct)
 		if err != nil {
+			// The code no longer has the shape the contract was written for (a loop the
+			// contract gives an invariant for is gone, a local or field a clause names no
+			// longer exists, a callee an at-call clause watches ...): the obligations cannot
+			// even be generated. On a tree that type-checks this is a change of the code under
+			// contract, reported like a vanished function - not a defect of the machinery
+			// (contract files are validated against the unchanged tree before registration).
+			if structuralMismatch(err.Error()) {
+				mismatched = append(mismatched, [2]string{k, err.Error()})
+				continue
+			}
 			machineryError("%s: %v", k, err)
 		}
 		fnNames = append(fnNames, c.fnName())
@@ -293,6 +304,14 @@ func cmdCheck(args []string) {
 			suffix = " no-failing-input-found"
 		}
 		outLines = append(outLines, fmt.Sprintf("VIOLATION property=%s replay=%s obligation=%s verdict=%s%s", *prop, rp.path, o.Name, o.Verdict, suffix))
+	}
+	for _, mm := range mismatched {
+		violations++
+		obligations++
+		rp := filepath.Join(*verif, "evidence", "replays", *prop+"-"+sanitize(mm[0])+".json")
+		j, _ := json.MarshalIndent(map[string]any{"property": *prop, "obligation": mm[0] + "#shape", "reason": "the function no longer has the shape its contract describes; its obligations cannot be generated", "detail": mm[1]}, "", " ")
+		os.WriteFile(rp, j, 0o644)
+		outLines = append(outLines, fmt.Sprintf("VIOLATION property=%s replay=%s obligation=%s#shape no-failing-input-found", *prop, rp, mm[0]))
 	}
 	for _, k := range missing {
 		violations++
@@ -426,4 +445,14 @@ func truncate(s string, n int) string {
 		return s[:n] + "...[truncated]"
 	}
 	return s
+}
+
+// structuralMismatch: generator errors that mean "the code under contract changed shape".
+func structuralMismatch(msg string) bool {
+	for _, p := range []string{"names loop", "unknown identifier", "has no field", "unknown field", "not an lvalue", "matches no call"} {
+		if strings.Contains(msg, p) {
+			return true
+		}
+	}
+	return false
 }
